@@ -8,6 +8,18 @@ from montepy.input_parser.mcnp_input import Input, Jump
 import warnings
 
 
+def _drop_final_continuation_mark(text):
+    """
+    An input of the data block must not end in the continuation mark: the next input would be
+    read as its continuation. (The values come from the cells with the padding they had there.)
+    """
+    stripped = text.rstrip()
+    last_line = stripped[stripped.rfind("\n") + 1 :]
+    if stripped.endswith("&") and "$" not in last_line:
+        return stripped[:-1].rstrip(" ")
+    return text
+
+
 class CellModifierInput(DataInputAbstract):
     """
     Abstract Parent class for Data Inputs that modify cells / geometry.
@@ -263,7 +275,10 @@ class CellModifierInput(DataInputAbstract):
         # print in either block
         if (self.in_cell_block != print_in_data_block) and self._is_worth_printing:
             self._update_values()
-            return self.wrap_string_for_mcnp(self._format_tree(), mcnp_version, True)
+            text = self._format_tree()
+            if not self.in_cell_block:
+                text = _drop_final_continuation_mark(text)
+            return self.wrap_string_for_mcnp(text, mcnp_version, True)
         return []
 
     @property
